@@ -12,7 +12,7 @@ Results are appended to a summary printed at the end; MUTANTS.md is regenerated 
 """
 import argparse, glob, json, os, re, shutil, subprocess, sys, tempfile
 
-ENV = dict(os.environ, GOFLAGS="-mod=mod", GOPROXY="off", GOSUMDB="off", GOTOOLCHAIN="local")
+ENV = dict(os.environ, GOFLAGS="-mod=mod -trimpath", GOPROXY="off", GOSUMDB="off", GOTOOLCHAIN="local")
 ENV.pop("GOWORK", None)
 HERE = os.path.dirname(os.path.dirname(os.path.abspath(__file__)))
 
